@@ -52,6 +52,8 @@ var c26Assumptions = []string{
 	"while finding " + c26FindCIRanges + " is listed open, a disagreement (no LIMIT) on a query with an IN list whose dolt plan is a multi-range index scan and where dolt returns the reference rows with extra copies (or a larger COUNT) is attributed to it (counted as excluded_known); the pinned sub-test reports it",
 	"while finding " + c26FindHashJoinKey + " is listed open (not minimised, replays saved), a disagreement on a join with a collated key column or a literal comparison in ON whose dolt plan contains a HashLookup and where dolt returns fewer rows than the reference is attributed to it (counted as excluded_known)",
 	"grammar exclusion (go-mysql-server bug shared by both engines): GROUP BY takes at most one string/binary column, because the grouping key concatenates the values and ('', ' ') collides with (' ', ''); skipped group columns are counted as excluded_known",
+	"while finding " + c26FindMergeKeylessCI + " is listed open, a disagreement on a join that involves a keyless table and a collated key column and whose dolt plan contains a MergeJoin is attributed to it (counted as excluded_known); the pinned sub-test reports it",
+	"while finding " + c26FindHashJoinExtra + " is listed open (not minimised, replays saved), a disagreement on a join with a collated key column or a BIGINT = BIGINT UNSIGNED key whose dolt plan contains a HashLookup and where dolt returns more rows than the reference is attributed to it (counted as excluded_known)",
 	"while finding " + c26FindKeylessCount + " is listed open, `SELECT COUNT(col) FROM <keyless table>` is not generated (counted as excluded_known); the pinned sub-test reports it",
 }
 
@@ -583,6 +585,32 @@ func c26PinnedCIRanges(t *testing.T, srv *vsql.Server, admin *vsql.Session) stri
 	return ""
 }
 
+// c26FindMergeKeylessCI: the kv merge join over a KEYLESS table compares join keys with a
+// case/accent-insensitive collation bytewise: 'a' never meets 'A'.
+const c26FindMergeKeylessCI = "C26-mergejoin-keyless-collated-key"
+
+func c26PinnedMergeKeylessCI(t *testing.T, srv *vsql.Server, admin *vsql.Session) string {
+	db := srv.NewDBName()
+	admin.MustExec(t, "CREATE DATABASE "+db)
+	defer admin.Exec("DROP DATABASE " + db)
+	s := srv.Session(t, "pinned", db)
+	defer s.Close()
+	s.MustExec(t, "CREATE TABLE t (c0 VARCHAR(8) COLLATE utf8mb4_general_ci, c3 VARCHAR(8) COLLATE utf8mb4_general_ci, KEY i1 (c0), KEY i2 (c3))")
+	s.MustExec(t, "INSERT INTO t VALUES ('a','A'),('b','B')")
+	q := "SELECT /*+ MERGE_JOIN(a,b) */ a.c0, b.c3 FROM t a JOIN t b ON a.c0 = b.c3"
+	r := s.MustQuery(t, q)
+	if got := vsql.Show(r.Sorted()); got != "(a,A) (b,B)" {
+		p := s.MustQuery(t, "EXPLAIN PLAN "+q)
+		return "keyless t(c0, c3 VARCHAR(8) COLLATE utf8mb4_general_ci, KEY (c0), KEY (c3)) = {('a','A'),('b','B')}: " + q + " returned [" + got + "] want (a,A) (b,B); plan " + p.Ordered()[0]
+	}
+	return ""
+}
+
+// c26FindHashJoinExtra: thorough-tier disagreements, not minimised: hash joins (same plan in both
+// engines) on a collated key or on BIGINT = BIGINT UNSIGNED where dolt returns MORE rows than the
+// reference (e.g. 9223372036854775807 joined to 9223372036854775808). Evidence: saved replays.
+const c26FindHashJoinExtra = "C26-hashjoin-unminimised-extra-rows"
+
 // c26FindHashJoinKey: thorough-tier disagreements, not minimised: a hash join (HashLookup in the
 // plan, the same plan in both engines) whose key contains a column with a case/accent-insensitive
 // collation, or whose ON clause carries an extra comparison with a literal, returns fewer rows in
@@ -729,6 +757,29 @@ func (c *qCase) runQuery(q qQuery) {
 		if multi && strings.Contains(strings.ToUpper(dsql), " IN (") && ((isCount && dn > mn) || (!isCount && qOnly(mr, dr) == "" && qSameSet(dr, mr))) {
 			c.rec.Excluded(1)
 			c.rec.Class("known:"+c26FindCIRanges, 1)
+			return
+		}
+	}
+	if mismatch && q.has("keyless_join") && q.has("ci_join_key") && vh.OpenFinding("C26", c26FindMergeKeylessCI) {
+		dp, _ := plan()
+		if strings.Contains(strings.Join(dp, "\n"), "MergeJoin") {
+			c.rec.Excluded(1)
+			c.rec.Class("known:"+c26FindMergeKeylessCI, 1)
+			return
+		}
+	}
+	if mismatch && (q.has("ci_join_key") || q.has("mixed_sign_join_key")) && vh.OpenFinding("C26", c26FindHashJoinExtra) {
+		dp, _ := plan()
+		more := len(dr.Data) > len(mr.Data)
+		if len(dr.Data) == 1 && len(mr.Data) == 1 && q.Form == "joincount" {
+			var dn, mn int
+			fmt.Sscan(dr.Data[0][0], &dn)
+			fmt.Sscan(mr.Data[0][0], &mn)
+			more = dn > mn
+		}
+		if strings.Contains(strings.Join(dp, "\n"), "HashLookup") && more {
+			c.rec.Excluded(1)
+			c.rec.Class("known:"+c26FindHashJoinExtra, 1)
 			return
 		}
 	}
@@ -1043,6 +1094,16 @@ func TestVerif_C26(t *testing.T) {
 				return
 			}
 			vh.NoteViolation(t.Name(), "", `{"sql":["CREATE TABLE t (k INT PRIMARY KEY, c VARCHAR(16) COLLATE utf8mb4_general_ci, KEY i (c))","INSERT INTO t VALUES (1,'Ab'),(2,'aB'),(3,'A'),(4,'b')","SELECT k FROM t WHERE c IN ('Ab','aB')"],"observed":"`+strings.ReplaceAll(msg, `"`, `'`)+`"}`)
+			t.Errorf("%s", msg)
+		}
+	})
+	t.Run("pinned_mergejoin_keyless_collated_key", func(t *testing.T) {
+		if msg := c26PinnedMergeKeylessCI(t, srv, admin); msg != "" {
+			if vh.OpenFinding("C26", c26FindMergeKeylessCI) {
+				vh.ReportKnown("C26", c26FindMergeKeylessCI, msg)
+				return
+			}
+			vh.NoteViolation(t.Name(), "", `{"sql":["CREATE TABLE t (c0 VARCHAR(8) COLLATE utf8mb4_general_ci, c3 VARCHAR(8) COLLATE utf8mb4_general_ci, KEY i1 (c0), KEY i2 (c3))","INSERT INTO t VALUES ('a','A'),('b','B')","SELECT /*+ MERGE_JOIN(a,b) */ a.c0, b.c3 FROM t a JOIN t b ON a.c0 = b.c3"],"observed":"`+strings.ReplaceAll(msg, `"`, `'`)+`"}`)
 			t.Errorf("%s", msg)
 		}
 	})
